@@ -168,3 +168,32 @@ const sigRegexExample = "regex-type-example-snapshot"
 func exampleOnlyDiff(a, b []byte, files map[string][]byte) bool {
 	return regexUnionProject(files) && ref.OnlyExamplesDiffer(a, b)
 }
+
+// concMismatchIsD27: a mismatch line of a concurrent batch that says "only examples differ" and names a project with a regex TYPE.
+func concMismatchIsD27(j *proto.Job, m string) bool {
+	if !strings.HasPrefix(m, "only-examples:") || j.Conc == nil {
+		return false
+	}
+	files := map[string][]byte{}
+	for _, p := range j.Conc.Projects {
+		if strings.Contains(m, " of "+p.Name+":") {
+			files[p.Name] = p.Content
+			for n, b := range p.Files {
+				files[p.Name+"/"+n] = b
+			}
+		}
+	}
+	return regexUnionProject(files)
+}
+
+// onlyOneSerialises: the first of two builds that must give the same catalog was serialised, the second one was not (its
+// accessor returned an error or panicked): "the same catalog" needs a catalog. Returns a signature suffix and a description.
+func onlyOneSerialises(a, b *proto.Output) (sig, what string) {
+	if a == nil || a.Bytes == nil || b == nil {
+		return "", ""
+	}
+	if s, w := outProblem(b); s != "" {
+		return s, w
+	}
+	return "", ""
+}
